@@ -49,6 +49,8 @@ impl LfoHandle {
 
 impl Drop for LfoHandle {
 	fn drop(&mut self) {
+		#[cfg(kira_verif)]
+		crate::verif::yield_point("lfo.removed.store");
 		self.shared.removed.store(true, Ordering::SeqCst);
 	}
 }
